@@ -10,6 +10,11 @@ import (
 // dischargeBatch checks all obligations of one function context in a single incremental z3 process.
 // Returns the wall time spent in the solver (ms).
 func dischargeBatch(c *FuncCtx, obs []*Obligation, tmp string, gi int) int64 {
+	for _, ob := range obs {
+		if ob.Raw != "" {
+			return 0 // raw SMT-LIB lemmas are run on their own
+		}
+	}
 	c.mu.Lock()
 	var b strings.Builder
 	b.WriteString("(set-option :timeout 2500)\n(set-logic ALL)\n")
